@@ -19,6 +19,7 @@ func scenarios(quick bool) []sigh.Scen {
 		// the tracker is released and re-created (nonce restarts) before the old call runs its cleanup
 		{"slow-listen-outlives-tracker", [][]string{{"listens:l1:A", "wait", "attach:b1:B:A", "wait", "cancel:b1", "wait", "listen:l2:A", "wait", "cancel:l2", "wait", "listen:l3:A", "wait", "resume:l1", "wait", "attach:b2:B:A"}}},
 		{"slow-session-outlives-tracker", [][]string{{"attachs:a1:A:B", "wait", "attach:a2:A:B", "wait", "cancel:a2", "wait", "attach:a3:A:B", "wait", "resume:a1", "wait", "attach:b1:B:A"}}},
+		{"replace-racing-with-cancel", [][]string{{"!setup", "attach:a1:A:B", "attach:b1:B:A", "listen:l1:B", "wait"}, {"attach:a2:A:B", "cancel:a2"}, {"cancel:b1", "listen:l2:B"}}},
 		{"listen-cancel-race", [][]string{{"listen:l1:C", "cancel:l1"}, {"attach:a1:A:C", "cancel:a1"}}},
 	}
 	if !quick {
